@@ -73,6 +73,25 @@ theorem C15_failure_propagates (step : σ → σ) (small : σ → σ → Bool) (
     getResult sim = .error .noSteadyState ∧ workerRow (getResult sim) = none := by
   simp [simulateToSteadyState, Sim.fresh, h, handleResult, getResult, workerRow]
 
+/-- ... also on a simulator that ALREADY HOLDS RESULTS of earlier successful calls (`simulate`, a time course):
+a later steady-state search that fails turns `get_result()` into the error; the stored rows are never presented
+as the outcome. -/
+theorem C15_failure_after_results (step : σ → σ) (small : σ → σ → Bool) (y0 : σ)
+    (rows : Option (List (Nat × σ)))
+    (h : ssRun Gen.copies step small Gen.maxSteps y0 = .noSteadyState) :
+    let sim := simulateToSteadyState Gen.stepSize (⟨[], rows⟩ : Sim σ)
+      (fun _ => ssRun Gen.copies step small Gen.maxSteps y0)
+    getResult sim = .error .noSteadyState ∧ workerRow (getResult sim) = none := by
+  simp [simulateToSteadyState, h, handleResult, getResult, workerRow]
+
+/-- ... and a success is appended after the stored rows -/
+theorem C15_success_after_results (step : σ → σ) (small : σ → σ → Bool) (y0 : σ) (n : Nat) (r : σ)
+    (rows : List (Nat × σ))
+    (h : ssRun Gen.copies step small Gen.maxSteps y0 = .steady n r) :
+    getResult (simulateToSteadyState Gen.stepSize (⟨[], some rows⟩ : Sim σ)
+      (fun _ => ssRun Gen.copies step small Gen.maxSteps y0)) = .ok (rows ++ [(n * Gen.stepSize, r)]) := by
+  simp [simulateToSteadyState, h, handleResult, getResult]
+
 /-- ... and success propagates unchanged: one row, time `n * step_size`, the loop's state. -/
 theorem C15_success_propagates (step : σ → σ) (small : σ → σ → Bool) (y0 : σ) (n : Nat) (r : σ)
     (h : ssRun Gen.copies step small Gen.maxSteps y0 = .steady n r) :
